@@ -72,25 +72,25 @@ type Conn struct {
 	w *World
 	N int // 1-based ordinal
 
-	Out       []byte // bytes accepted from the client
-	fedLimit  int    // bytes beyond this offset never reach the broker (-1 = no limit)
-	wfaults   []WFault
-	wdl, rdl  bool
-	rdlProg   int
-	wdlProg   int
-	closed    bool
-	closeN    int
-	broken    bool // harness broke it
-	wErr      error
-	failedW   bool // a Write returned an error
+	Out             []byte // bytes accepted from the client
+	fedLimit        int    // bytes beyond this offset never reach the broker (-1 = no limit)
+	wfaults         []WFault
+	wdl, rdl        bool
+	rdlProg         int
+	wdlProg         int
+	closed          bool
+	closeN          int
+	broken          bool // harness broke it
+	wErr            error
+	failedW         bool // a Write returned an error
 	WritesAfterFail int
 
-	in      []byte // undelivered inbound bytes
-	InOff   int    // inbound bytes delivered
-	InTotal int    // inbound bytes enqueued
-	chunks  []int
-	rfaults []RFault
-	rErr    error
+	in       []byte // undelivered inbound bytes
+	InOff    int    // inbound bytes delivered
+	InTotal  int    // inbound bytes enqueued
+	chunks   []int
+	rfaults  []RFault
+	rErr     error
 	eofAtEnd bool
 
 	readerParked  bool
